@@ -17,7 +17,7 @@ import os
 
 import numpy as np
 
-from .. import core
+from .. import argguard, core
 
 L1_CLAUSES = ["TypeOK", "C12_WellFormed", "C12_HardEdgeIsRadialStep", "C12_HighpassIsComplement",
               "C12_BandpassIsDifference", "C12_ColumnsAreIntervals", "C12_SoftClasses", "C12_ClassRadialSymmetricRayMonotone",
@@ -63,13 +63,49 @@ def filters_for(cfgd):
     """name -> callable(map) for one configuration (cutoffs as Fourier pixels)."""
     from cryocat import cryomap
     rl, sl, rh, sh = cfgd["rl"], cfgd["fl"] / 4.0, cfgd["rh"], cfgd["fh"] / 4.0
+    if cfgd.get("tiny"):                 # a soft edge of vanishing width (logged as the narrowest class f = 1)
+        sl = 1e-9 if cfgd["fl"] == 1 else sl
+        sh = 1e-9 if cfgd["fh"] == 1 else sh
+    if cfgd.get("gint"):                 # integral widths spelled as int
+        sl = int(sl) if float(sl) == int(sl) else sl
+        sh = int(sh) if float(sh) == int(sh) else sh
+    kw = {"pixel_size": 1.7} if cfgd.get("with_px") else {}      # pixel size given next to Fourier pixels: only printed
     return {
-        "lp": lambda x: quiet(cryomap.lowpass, x, fourier_pixels=rl, gaussian=sl),
-        "hp": lambda x: quiet(cryomap.highpass, x, fourier_pixels=rl, gaussian=sl),
-        "lp2": lambda x: quiet(cryomap.lowpass, x, fourier_pixels=rh, gaussian=sh),
+        "lp": lambda x: quiet(cryomap.lowpass, x, fourier_pixels=rl, gaussian=sl, **kw),
+        "hp": lambda x: quiet(cryomap.highpass, x, fourier_pixels=rl, gaussian=sl, **kw),
+        "lp2": lambda x: quiet(cryomap.lowpass, x, fourier_pixels=rh, gaussian=sh, **kw),
         "bp": lambda x: quiet(cryomap.bandpass, x, lp_fourier_pixels=rl, hp_fourier_pixels=rh, lp_gaussian=sl,
-                              hp_gaussian=sh),
+                              hp_gaussian=sh, **kw),
     }
+
+
+MAP_FORMS = ["c", "f", "strided", "ro"]
+
+
+def to_form(a, form):
+    """Storage form of an input map: C-ordered, Fortran-ordered, non-contiguous view, read-only."""
+    if form == "f":
+        return np.asfortranarray(a)
+    if form == "strided":
+        big = np.full(a.shape[:2] + (2 * a.shape[2],), 0.5, dtype=a.dtype)
+        big[:, :, ::2] = a
+        return big[:, :, ::2]
+    if form == "ro":
+        r = np.array(a, copy=True)
+        r.setflags(write=False)
+        return r
+    return np.ascontiguousarray(a)
+
+
+def call_history(n, nprng, workdir):
+    """Other public functions of cryomap / cryomask with non-default options, on another map: nothing of them may leak."""
+    from cryocat import cryomap, cryomask
+    other = nprng.normal(size=[max(4, x - 1) for x in n])
+    quiet(cryomap.lowpass, other, fourier_pixels=2, gaussian=1.25, output_name=os.path.join(workdir, "hist_%d.mrc" % os.getpid()))
+    quiet(cryomap.bandpass, other, lp_target_resolution=8.0, hp_target_resolution=30.0, pixel_size=2.0, lp_gaussian=1, hp_gaussian=0)
+    quiet(cryomask.spherical_mask, list(n), radius=2, gaussian=1.0, gaussian_outwards=True)
+    quiet(cryomap.normalize, other)
+    quiet(cryomap.resolution2pixels, 12.5, n[0], 1.3)
 
 
 def res_filter(t):
@@ -125,14 +161,20 @@ def measure_filt(case):
     n = case["n"]
     rng = random.Random(case["mseed"])
     nprng = np.random.default_rng(case["mseed"])
-    a = nprng.normal(size=n)
-    b = nprng.normal(size=n) + 0.3
+    amp = float(case.get("amp", 1.0))
+    form = case.get("form", "c")
+    if case.get("hist"):
+        call_history(n, nprng, os.getcwd())
+    a = to_form(nprng.normal(size=n) * amp, form)               # ONE object per map, reused for every filter and call
+    b = to_form((nprng.normal(size=n) + 0.3) * amp, form)
     Fa, Fb = np.fft.fftn(a), np.fft.fftn(b)
     shift = [rng.randrange(m) for m in n]
-    t = {"kind": "filt", "n": n, "rl": case["rl"], "fl": case["fl"], "rh": case["rh"], "fh": case["fh"], "real": True}
+    t = {"kind": "filt", "n": n, "rl": case["rl"], "fl": case["fl"], "rh": case["rh"], "fh": case["fh"], "real": True,
+         "form": form, "hist": bool(case.get("hist"))}
     imax = spread = pw = leak = lin = shf = rep = keep = 0.0
     argmut = False
     a0, b0 = a.copy(), b.copy()
+    guard = argguard.Guard(a=a, b=b)
     fl = filters_for(case)
     small = n[0] * n[1] * n[2] <= case.get("pw_limit", 1200)
     for name in ("lp", "hp", "lp2", "bp"):
@@ -153,13 +195,13 @@ def measure_filt(case):
             snap_a, snap_b = oa.copy(), ob.copy()
         snap_a, snap_b = np.real(snap_a), np.real(snap_b)
         again = f(a)
-        keep = max(keep, float(np.max(np.abs(ob - snap_b))), float(np.max(np.abs(oa - snap_a))))
+        keep = max(keep, float(np.max(np.abs(ob - snap_b))) / amp, float(np.max(np.abs(oa - snap_a))) / amp)
         for arr in (oa, again):
             if isinstance(arr, np.ndarray) and arr.flags.writeable:
-                arr[...] = 7.0
+                arr[...] = 7.0 * amp
         third = np.real(np.asarray(f(a)))
-        rep = max(rep, float(np.max(np.abs(third - snap_a))) if third.shape == snap_a.shape else 2.0)
-        argmut = argmut or not (np.array_equal(a, a0) and np.array_equal(b, b0))
+        rep = max(rep, float(np.max(np.abs(third - snap_a))) / amp if third.shape == snap_a.shape else 2.0)
+        argmut = argmut or guard.changed() is not None or not (np.array_equal(a, a0) and np.array_equal(b, b0))
         oa, ob = snap_a, snap_b
         imax = max(imax, float(np.max(np.abs(Ha.imag))), float(np.max(np.abs(Hb.imag))))
         spread = max(spread, float(np.max(np.abs(Ha - Hb))))
@@ -206,6 +248,42 @@ def measure_dtype(case):
         comp = float(np.max(np.abs(o["lp"] + o["hp"] - base))) / amp
         dev = max(float(np.max(np.abs(o[k] - ref[k]))) for k in o) / amp
         runs.append({"dt": dt, "real": True, "lin": clampi(lin * M), "comp": clampi(comp * M), "dev": clampi(dev * M)})
+    # a 0/1 map of dtype bool (no multiples in bool: complement and agreement with the float64 map)
+    bmap = base > 0
+    ob = {k: np.asarray(fl[k](bmap), dtype=float) for k in ("lp", "hp", "bp")}
+    obf = {k: np.asarray(fl[k](bmap.astype("float64")), dtype=float) for k in ("lp", "hp", "bp")}
+    runs.append({"dt": "bool", "real": True, "lin": 0, "comp": clampi(float(np.max(np.abs(ob["lp"] + ob["hp"] - bmap))) * M),
+                 "dev": clampi(max(float(np.max(np.abs(ob[k] - obf[k]))) for k in ob) * M)})
+    # the same map read from a file of every accepted extension, and results written with output_name and read back
+    from cryocat import cryomap
+    a32 = base.astype("float32")
+    ref32 = {k: np.asarray(fl[k](a32), dtype=float) for k in ("lp", "hp", "bp")}
+    wd = os.getcwd()
+    for ext in case.get("exts", ["mrc", "em", "rec"]):
+        path = os.path.join(wd, "map_%d.%s" % (os.getpid(), ext))
+        cryomap.write(a32, path)
+        before = open(path, "rb").read()
+        of = {k: np.asarray(fl[k](path), dtype=float) for k in ("lp", "hp", "bp")}
+        same = open(path, "rb").read() == before
+        dev = max(float(np.max(np.abs(of[k] - ref32[k]))) if of[k].shape == ref32[k].shape else 2.0 * amp for k in of) / amp
+        runs.append({"dt": "file_" + ext, "real": True, "lin": 0, "comp": 0, "dev": clampi(dev * M) if same else CLAMP})
+        os.remove(path)
+        outp = os.path.join(wd, "filtered_%d.%s" % (os.getpid(), ext))
+        rl, sl, rh, sh = case["rl"], case["fl"] / 4.0, case["rh"], case["fh"] / 4.0
+        a64 = base.astype("float64")
+        calls = {"lp": lambda: quiet(cryomap.lowpass, a64, fourier_pixels=rl, gaussian=sl, output_name=outp),
+                 "hp": lambda: quiet(cryomap.highpass, a64, fourier_pixels=rl, gaussian=sl, output_name=outp),
+                 "bp": lambda: quiet(cryomap.bandpass, a64, lp_fourier_pixels=rl, hp_fourier_pixels=rh, lp_gaussian=sl,
+                                     hp_gaussian=sh, output_name=outp)}
+        dev = 0.0
+        for k, call in calls.items():
+            o = np.asarray(call(), dtype=float)
+            back = np.asarray(cryomap.read(outp), dtype=float) if os.path.exists(outp) else np.zeros((1,))
+            dev = max(dev, float(np.max(np.abs(o - ref[k]))) if o.shape == ref[k].shape else 2.0 * amp,
+                      float(np.max(np.abs(back - ref[k]))) if back.shape == ref[k].shape else 2.0 * amp)
+            if os.path.exists(outp):
+                os.remove(outp)
+        runs.append({"dt": "out_" + ext, "real": True, "lin": 0, "comp": 0, "dev": clampi(dev / amp * M)})
     return {"kind": "dtype", "n": n, "runs": runs}
 
 
@@ -317,13 +395,20 @@ def replay_hard(ctx, rec, mseed):
     n = q["n"]
     case = {"kind": "hard", "req": q, "mseed": mseed}
     cfgd = {"rl": q["rl"], "fl": 0, "rh": q["rh"], "fh": 0}
-    a = np.random.default_rng(mseed).normal(size=n)
+    a = to_form(np.random.default_rng(mseed).normal(size=n), MAP_FORMS[mseed % 4])      # one object for the four filters
     Fa = np.fft.fftn(a)
     ctx.ran(case)
+    cfgd["with_px"] = mseed % 3 == 0 and q["rl"] >= 1 and q["rh"] >= 1     # cutoff 0 with a pixel size: resolution undefined
     fl = filters_for(cfgd)
+    guard = argguard.Guard(map=a)
     for name, op in (("lp", "lowpass"), ("hp", "highpass"), ("lp2", "lowpass"), ("bp", "bandpass")):
         sig = {"op": op, "cutoff_as": "pixels", "edge": "hard"}
         o, err = core.call_guarded(fl[name], a)
+        why = guard.changed()
+        if why:
+            ctx.fail("C12_CallsAreIndependent", "%s changed its argument: %s" % (name, why), case, sig)
+            a = to_form(np.random.default_rng(mseed).normal(size=n), MAP_FORMS[mseed % 4])
+            guard = argguard.Guard(map=a)
         if err is not None:
             ctx.fail("call_raises", "%s: %s" % (name, err), case, sig)
             continue
@@ -413,7 +498,8 @@ def rand_filt(rng, n, rl=None):
     if fl == 0 and rng.random() < 0.5:
         fh = 0
     return {"kind": "filt", "n": n, "rl": rl, "fl": fl, "rh": rh, "fh": fh, "mseed": rng.randrange(2 ** 31),
-            "pw_limit": 900}
+            "pw_limit": 900, "form": rng.choice(MAP_FORMS), "hist": rng.random() < 0.5, "with_px": rng.random() < 0.3,
+            "gint": rng.random() < 0.3, "amp": rng.choice([1.0, 1.0, 1e-9, 1e6, 1e-30, 1e30])}
 
 
 def noncubic_box(rng, lo, hi, cap):
@@ -493,7 +579,9 @@ def run(ctx):
         "the even neighbour (Python round) and are compared when px and res are multiples of 1/4 A (quotient exact in "
         "floating point); other rational ties are discarded (decided by TLC)",
         "quick tier: hard-edged low-pass at every cutoff 1..24 of a 48-box, gain table as per-column runs decided per column",
-        "input dtypes: the same integer-valued map as int16 / int32 / float32 / float64 (float32 residuals within 5e-6)",
+        "input dtypes: the same integer-valued map as int16 / int32 / float32 / float64 / bool, as .mrc / .em / .rec file, "
+        "and with output_name (single-precision residuals within 5e-6); maps as C / Fortran / strided / read-only arrays; "
+        "amplitudes 1e-30 .. 1e30; pathlib.Path is refused by cryomap.read on the unchanged tree (documented str)",
         "independence of calls (repeat after overwriting the returned array, earlier results unchanged, argument "
         "untouched) is read into 'filtering is a linear map of its input'",
         "plane waves: every integer frequency in boxes of <= 900 voxels, else axes, body diagonals and a random sample"]
@@ -554,15 +642,26 @@ def run(ctx):
     if want("trace"):
         cases = []
         if ctx.quick:
-            for _ in range(20):
+            for _ in range(14):
                 cases.append(rand_filt(rng, rand_box(rng, 8, 16, cap=2400)))
             cases.append(rand_filt(rng, rand_box(rng, 20, 30, cap=16000)))
             # the extreme soft edge: r = 4 sigma + 1 (One = {DC}) and r = N/2 with the widest edge
             cases.append({"kind": "filt", "n": [34, 20, 18], "rl": 17, "fl": 16, "rh": 9, "fh": 8, "mseed": rng.randrange(2 ** 31),
                           "pw_limit": 0})
-            for _ in range(8):      # the same integer-valued map as int16 / int32 / float32 / float64
+            for i in range(8):      # the same map as int16 / int32 / float32 / float64 / bool / file / with output_name
                 c = rand_filt(rng, rand_box(rng, 8, 16, cap=2400))
                 c["kind"] = "dtype"
+                c["exts"] = [["mrc", "em", "rec"][i % 3]]
+                cases.append(c)
+            # every cutoff 1..N/2 of one small box with a soft edge; vanishing widths (sigma = 1e-9 against sigma = 0)
+            sb = noncubic_box(rng, 8, 12, 1000)
+            for rl in range(1, max(sb) // 2 + 1):
+                c = rand_filt(rng, sb, rl=rl)
+                c["fl"] = rng.choice([2, 4, 6, 8])
+                cases.append(c)
+            for _ in range(2):
+                c = rand_filt(rng, rand_box(rng, 8, 12, cap=1000))
+                c.update({"fl": 1, "fh": rng.choice([0, 1]), "tiny": True, "gint": False})
                 cases.append(c)
             # every integer cutoff 1..24 of the largest box (lattice points exactly on the sphere: 13, 17, 23, 15, 25 ...)
             big = rng.choice([[48, 48, 48], [48, 47, 48], [48, 48, 45], [47, 48, 48]])
